@@ -3,7 +3,7 @@
   (the definitions the driver runs).  `rowSimp s k` / `colSimp s k` (XgiModel/C13/LemmasSC.lean) list, in row /
   column order, the id and the sorted vertex list of the simplices labelling rows and columns of `boundary s k o`.
 -/
-import XgiModel.C13.LemmasFace
+import XgiModel.C13.LemmasHodge
 
 open Finset
 
@@ -78,6 +78,18 @@ theorem boundary_defined (h : WF s) (k : Nat) (o : PyId → Nat) : boundaryDefin
         rw [List.getElem?_eq_getElem hc, hgc] at hget
         simp only [Option.some.injEq] at hget
         rw [hget]; rfl
+
+/-- `S._subfaces(l, all=False)` = `itertools.combinations(l, len(l)-1)` lists the faces by erasing positions from
+    the back: the face number `i` is `l` without position `len(l)-1-i` -/
+theorem subfaces_order (l : List Atom) (hl : l ≠ []) :
+    subfaces l = (List.range l.length).map (fun i => l.eraseIdx (l.length - 1 - i)) := subfaces_eq l hl
+
+/-- the reference orientation is a sorted duplicate-free listing of the same vertices, and it does not depend on
+    the order in which the set of members happens to be listed -/
+theorem sort_canonical {a b : List Atom} (ha : a.Nodup) (hb : b.Nodup) (hm : ∀ x, x ∈ a ↔ x ∈ b) :
+    sortMembers a = sortMembers b ∧ Sorted (sortMembers a) ∧ (∀ x, x ∈ sortMembers a ↔ x ∈ a) :=
+  ⟨sorted_unique (nodup_sort ha) (nodup_sort hb) (fun x => by rw [mem_sort, mem_sort]; exact hm x)
+      (sort_sorted a) (sort_sorted b), sort_sorted a, fun _ => mem_sort⟩
 
 /-! ### column support -/
 
@@ -245,5 +257,173 @@ theorem dd_zero_lists (h : WF s) (o : PyId → Nat) (n : Nat) :
       simp only [List.length_map, List.length_range] at h3
       simp only [List.getElem_map, List.getElem_range, List.getElem_replicate]
       exact dd_zero h o n h1 h3
+
+/-! ### Hodge Laplacians (any complex, any orientation: no well-formedness needed) -/
+
+/-- `L_k` is symmetric -/
+theorem hodge_symm (k : Nat) (o : PyId → Nat) (i j : Nat) : (hodge s k o).e i j = (hodge s k o).e j i := by
+  rw [hodge_e, hodge_e]
+  congr 1 <;> (apply Finset.sum_congr rfl; intros; ring)
+
+/-- `xᵀ L_k x = ‖B_k x‖² + ‖B_{k+1}ᵀ x‖²` -/
+theorem hodge_quadratic_form (k : Nat) (o : PyId → Nat) (x : Nat → Int) :
+    (∑ i ∈ range (hodge s k o).r, ∑ j ∈ range (hodge s k o).c, x i * (hodge s k o).e i j * x j) =
+      (∑ m ∈ range (boundary s k o).r, ((boundary s k o).mulVec x m) ^ 2) +
+      (∑ m ∈ range (boundary s (k + 1) o).c, ((boundary s (k + 1) o).transpose.mulVec x m) ^ 2) := by
+  rw [hodge_r, hodge_c]
+  simp only [hodge_e, mulVec_eq, Mat.transpose]
+  rw [← boundary_shapes_compose k o]
+  rw [← quad_gram (fun m j => (boundary s k o).e m j) x, ← quad_gram (fun m j => (boundary s (k + 1) o).e j m) x]
+  rw [← Finset.sum_add_distrib]
+  apply Finset.sum_congr rfl; intro i _
+  rw [← Finset.sum_add_distrib]
+  apply Finset.sum_congr rfl; intro j _
+  ring
+
+/-- **`L_k` is positive semidefinite** (integer vectors) -/
+theorem hodge_psd (k : Nat) (o : PyId → Nat) (x : Nat → Int) :
+    0 ≤ ∑ i ∈ range (hodge s k o).r, ∑ j ∈ range (hodge s k o).c, x i * (hodge s k o).e i j * x j := by
+  rw [hodge_quadratic_form]
+  exact add_nonneg (Finset.sum_nonneg (fun _ _ => sq_nonneg _)) (Finset.sum_nonneg (fun _ _ => sq_nonneg _))
+
+/-- **`L_k` is positive semidefinite** (rational vectors) -/
+theorem hodge_psd_rat (k : Nat) (o : PyId → Nat) (x : Nat → ℚ) :
+    0 ≤ ∑ i ∈ range (hodge s k o).r, ∑ j ∈ range (hodge s k o).c, x i * ((hodge s k o).e i j : ℚ) * x j := by
+  have hq : (∑ i ∈ range (hodge s k o).r, ∑ j ∈ range (hodge s k o).c, x i * ((hodge s k o).e i j : ℚ) * x j) =
+      (∑ m ∈ range (boundary s k o).r, (∑ j ∈ range (boundary s k o).c, ((boundary s k o).e m j : ℚ) * x j) ^ 2) +
+      (∑ m ∈ range (boundary s (k + 1) o).c,
+        (∑ j ∈ range (boundary s k o).c, ((boundary s (k + 1) o).e j m : ℚ) * x j) ^ 2) := by
+    rw [hodge_r, hodge_c]
+    rw [← quad_gram (fun m j => ((boundary s k o).e m j : ℚ)) x,
+      ← quad_gram (fun m j => ((boundary s (k + 1) o).e j m : ℚ)) x]
+    rw [← Finset.sum_add_distrib]
+    apply Finset.sum_congr rfl; intro i _
+    rw [← Finset.sum_add_distrib]
+    apply Finset.sum_congr rfl; intro j _
+    rw [hodge_e]; push_cast; ring
+  rw [hq]
+  exact add_nonneg (Finset.sum_nonneg (fun _ _ => sq_nonneg _)) (Finset.sum_nonneg (fun _ _ => sq_nonneg _))
+
+/-! ### the kernel of `L_0` -/
+
+/-- `L_0 x = 0` exactly when `B_1ᵀ x = 0` -/
+theorem ker_L0_iff (h : WF s) (o : PyId → Nat) (x : Nat → Int) :
+    (∀ i < (hodge s 0 o).r, (hodge s 0 o).mulVec x i = 0) ↔
+    (∀ m < (boundary s 1 o).c, (boundary s 1 o).transpose.mulVec x m = 0) := by
+  have h0 : (boundary s 0 o).r = 0 := (boundary_zero_no_rows h o).1
+  have hn : (boundary s 1 o).r = (boundary s 0 o).c := (boundary_shapes_compose 0 o).symm
+  have hL : ∀ i j, (hodge s 0 o).e i j = ∑ m ∈ range (boundary s 1 o).c, (boundary s 1 o).e i m * (boundary s 1 o).e j m := by
+    intro i j; rw [hodge_e, h0]; simp
+  have hT : ∀ m, (boundary s 1 o).transpose.mulVec x m = ∑ j ∈ range (boundary s 0 o).c, (boundary s 1 o).e j m * x j := by
+    intro m; rw [mulVec_eq]; simp only [Mat.transpose, hn]
+  constructor
+  · intro hker
+    have hq := hodge_quadratic_form (s := s) 0 o x
+    rw [h0, Finset.sum_range_zero, zero_add] at hq
+    have hz : (∑ i ∈ range (hodge s 0 o).r, ∑ j ∈ range (hodge s 0 o).c, x i * (hodge s 0 o).e i j * x j) = 0 := by
+      apply Finset.sum_eq_zero
+      intro i hi
+      have := hker i (mem_range.mp hi)
+      rw [mulVec_eq] at this
+      calc (∑ j ∈ range (hodge s 0 o).c, x i * (hodge s 0 o).e i j * x j)
+          = x i * ∑ j ∈ range (hodge s 0 o).c, (hodge s 0 o).e i j * x j := by
+            rw [Finset.mul_sum]; apply Finset.sum_congr rfl; intros; ring
+        _ = 0 := by rw [this, mul_zero]
+    rw [hz] at hq
+    have := (Finset.sum_eq_zero_iff_of_nonneg (fun _ _ => sq_nonneg _)).mp hq.symm
+    intro m hm
+    exact pow_eq_zero_iff (two_ne_zero) |>.mp (this m (mem_range.mpr hm))
+  · intro hT0 i _
+    rw [mulVec_eq, hodge_c]
+    calc (∑ j ∈ range (boundary s 0 o).c, (hodge s 0 o).e i j * x j)
+        = ∑ m ∈ range (boundary s 1 o).c, (boundary s 1 o).e i m *
+            ∑ j ∈ range (boundary s 0 o).c, (boundary s 1 o).e j m * x j := by
+          simp_rw [hL, Finset.sum_mul, Finset.mul_sum]
+          rw [Finset.sum_comm]
+          apply Finset.sum_congr rfl; intro m _
+          apply Finset.sum_congr rfl; intro j _
+          ring
+      _ = 0 := by
+          apply Finset.sum_eq_zero
+          intro m hm
+          rw [← hT m, hT0 m (mem_range.mp hm), mul_zero]
+
+/-- `B_1ᵀ x` at the edge whose sorted vertex list is `[nodes[ia], nodes[ib]]` is `(-1)^o · (x ib − x ia)` -/
+theorem boundary_one_transpose_apply (h : WF s) (o : PyId → Nat) (x : Nat → Int) {m : Nat}
+    (hm : m < (colSimp s (0 + 1)).length) {ia ib : Nat} (hia : ia < s.nodes.length) (hib : ib < s.nodes.length)
+    (hab : (colSimp s (0 + 1))[m].2 = [s.nodes[ia], s.nodes[ib]]) :
+    (boundary s (0 + 1) o).transpose.mulVec x m = sgn (o (colSimp s (0 + 1))[m].1) * (x ib - x ia) := by
+  rw [mulVec_eq]
+  simp only [Mat.transpose]
+  rw [boundary_rows 0 o]
+  have hlen : (rowSimp s (0 + 1)).length = s.nodes.length := by simp [rowSimp]
+  have hterm : ∀ i ∈ range (rowSimp s (0 + 1)).length, (boundary s (0 + 1) o).e i m * x i =
+      (if i = ib then sgn (o (colSimp s (0 + 1))[m].1) * x i else 0) +
+      (if i = ia then - sgn (o (colSimp s (0 + 1))[m].1) * x i else 0) := by
+    intro i hi
+    have hi' := mem_range.mp hi
+    have hin : i < s.nodes.length := hlen ▸ hi'
+    have hrow : (rowSimp s (0 + 1))[i].2 = [s.nodes[i]] := by simp [rowSimp]
+    have e1 : (s.nodes[ib] = s.nodes[i]) ↔ i = ib := by
+      rw [h.nodesNodup.getElem_inj_iff]; exact eq_comm
+    have e2 : (s.nodes[ia] = s.nodes[i]) ↔ i = ia := by
+      rw [h.nodesNodup.getElem_inj_iff]; exact eq_comm
+    rw [entry_eq h o 0 hi' hm, hab, hrow]
+    simp only [Finset.sum_range_succ, Finset.sum_range_zero, zero_add, List.eraseIdx_zero, List.tail_cons,
+      List.eraseIdx_cons_succ, List.cons.injEq, and_true, add_zero, sgn_succ, rowOr, if_true, e1, e2]
+    split_ifs <;> ring
+  rw [Finset.sum_congr rfl hterm, Finset.sum_add_distrib, Finset.sum_ite_eq', Finset.sum_ite_eq']
+  rw [if_pos (mem_range.mpr (hlen ▸ hib)), if_pos (mem_range.mpr (hlen ▸ hia))]
+  ring
+
+/-- **kernel of `L_0`** (the part proved in Lean): `L_0 x = 0` exactly when `x` takes the same value at the two
+    end points of every 1-simplex, i.e. `x` is constant on every connected component.  (That the dimension of this
+    space is the number of components is not formalised; the harness checks it by exact rank.) -/
+theorem ker_L0_const_on_edges (h : WF s) (o : PyId → Nat) (x : Nat → Int) :
+    (∀ i < (hodge s 0 o).r, (hodge s 0 o).mulVec x i = 0) ↔
+    (∀ m (hm : m < (colSimp s (0 + 1)).length) (ia ib : Nat) (hia : ia < s.nodes.length) (hib : ib < s.nodes.length),
+      (colSimp s (0 + 1))[m].2 = [s.nodes[ia], s.nodes[ib]] → x ia = x ib) := by
+  rw [ker_L0_iff h o x]
+  constructor
+  · intro hT m hm ia ib hia hib hab
+    have h1 := hT m (by rw [boundary_cols 0 o]; exact hm)
+    rw [boundary_one_transpose_apply h o x hm hia hib hab] at h1
+    rcases mul_eq_zero.mp h1 with h2 | h2
+    · exact absurd h2 (sgn_ne_zero _)
+    · omega
+  · intro hE m hm
+    have hm' : m < (colSimp s (0 + 1)).length := by rw [← boundary_cols 0 o]; exact hm
+    obtain ⟨_, _, hlen, p, hps, _, hpe⟩ := colSimp_props h (0 + 1) hm'
+    obtain ⟨a, b, hab⟩ := List.length_eq_two.mp hlen
+    have hmem : ∀ y ∈ (colSimp s (0 + 1))[m].2, y ∈ s.nodes := by
+      intro y hy; rw [hpe] at hy; exact h.memNodes p hps y (mem_ss.mp hy)
+    obtain ⟨ia, hia, haa, _⟩ := idxOf_nodes h (hmem a (by rw [hab]; simp))
+    obtain ⟨ib, hib, hbb, _⟩ := idxOf_nodes h (hmem b (by rw [hab]; simp))
+    have hab' : (colSimp s (0 + 1))[m].2 = [s.nodes[ia], s.nodes[ib]] := by rw [hab, haa, hbb]
+    rw [boundary_one_transpose_apply h o x hm' hia hib hab', hE m hm' ia ib hia hib hab']
+    simp
+
+/-! ### non-vacuity: a concrete complex with mixed labels, non-sorted insertion order and explicit ids meets
+    the hypotheses, and the model evaluates to the matrices xgi returns for it -/
+
+/-- `xgi.SimplicialComplex([[3, 1, 2], [2, "a"]])` plus an isolated node, as the views list it -/
+private def demo : SC :=
+  { nodes := [.int 3, .int 1, .int 2, .str "a", .int 9]
+    simplices := [(.int 0, [.int 1, .int 2, .int 3]), (.str "e", [.int 2, .str "a"]), (.int 2, [.int 1, .int 3]),
+                  (.int 3, [.int 3, .int 2]), (.int 4, [.int 1, .int 2])] }
+
+private def demoO : PyId → Nat := orientOf [(.int 0, 1), (.str "e", 0), (.int 2, 1), (.int 3, 0), (.int 4, 1)]
+
+example : WF demo := by decide
+example : boundaryDefined demo 2 demoO = true := by decide +kernel
+example : (boundary demo 1 demoO).toLists = [[0, -1, 1, 0], [0, 1, 0, 1], [-1, 0, -1, -1], [1, 0, 0, 0], [0, 0, 0, 0]] := by
+  decide +kernel
+example : (boundary demo 2 demoO).toLists = [[0], [-1], [-1], [1]] := by decide +kernel
+example : ((boundary demo 1 demoO).mul (boundary demo 2 demoO)).toLists = [[0], [0], [0], [0], [0]] := by decide +kernel
+example : (hodge demo 0 demoO).toLists =
+    [[2, -1, -1, 0, 0], [-1, 2, -1, 0, 0], [-1, -1, 3, -1, 0], [0, 0, -1, 1, 0], [0, 0, 0, 0, 0]] := by decide +kernel
+/-- a complex that is not downward closed violates the hypotheses (and the Python call raises) -/
+example : ¬ WF { demo with simplices := demo.simplices.take 4 } := by decide
+example : boundaryDefined { demo with simplices := demo.simplices.take 4 } 2 demoO = false := by decide +kernel
 
 end Xgi.C13
